@@ -35,8 +35,9 @@ use log::debug;
 use regex::{Regex, RegexSet};
 use std::borrow::Cow;
 
-/// Verification hook H2: per-logical-line event log of process() (off unless a harness enables it).
-#[cfg(cc6502_verif)]
+/// Verification hook H2b (cfg cc6502_verif_trace): per-logical-line event log of process()
+/// (off unless a harness enables it).
+#[cfg(cc6502_verif_trace)]
 pub mod verif_log {
     use std::cell::RefCell;
     #[derive(Debug, Clone)]
@@ -331,9 +332,9 @@ pub fn process<I: BufRead, O: Write>(
 
     while input.read_line(&mut buf)? > 0 {
         line += 1;
-        #[cfg(cc6502_verif)]
+        #[cfg(cc6502_verif_trace)]
         let (vf_first, vf_before, vf_emitted) = (line, state, lines.len());
-        #[cfg(cc6502_verif)]
+        #[cfg(cc6502_verif_trace)]
         let mut vf_kind = "text";
 
         // Process splices by removing them...
@@ -463,7 +464,7 @@ pub fn process<I: BufRead, O: Write>(
             let substr = uncommented_buf.trim();
             // Before substitution, test the #ifdef
             if substr.starts_with("#ifdef") {
-                #[cfg(cc6502_verif)]
+                #[cfg(cc6502_verif_trace)]
                 {
                     vf_kind = "ifdef";
                 }
@@ -496,7 +497,7 @@ pub fn process<I: BufRead, O: Write>(
                     state = State::Skip;
                 }
             } else if substr.starts_with("#ifndef") {
-                #[cfg(cc6502_verif)]
+                #[cfg(cc6502_verif_trace)]
                 {
                     vf_kind = "ifndef";
                 }
@@ -529,7 +530,7 @@ pub fn process<I: BufRead, O: Write>(
                     state = State::Skip;
                 }
             } else if substr.starts_with("#undef") {
-                #[cfg(cc6502_verif)]
+                #[cfg(cc6502_verif_trace)]
                 {
                     vf_kind = "undef";
                 }
@@ -560,7 +561,7 @@ pub fn process<I: BufRead, O: Write>(
                     }
                 }
             } else if substr.starts_with("#define") {
-                #[cfg(cc6502_verif)]
+                #[cfg(cc6502_verif_trace)]
                 {
                     vf_kind = "define";
                 }
@@ -641,7 +642,7 @@ pub fn process<I: BufRead, O: Write>(
 
                     match name {
                         "#include" => {
-                            #[cfg(cc6502_verif)]
+                            #[cfg(cc6502_verif_trace)]
                             {
                                 vf_kind = "include";
                             }
@@ -746,7 +747,7 @@ pub fn process<I: BufRead, O: Write>(
                             }
                         }
                         "#if" => {
-                            #[cfg(cc6502_verif)]
+                            #[cfg(cc6502_verif_trace)]
                             {
                                 vf_kind = "if";
                             }
@@ -766,7 +767,7 @@ pub fn process<I: BufRead, O: Write>(
                             }
                         }
                         "#elif" => {
-                            #[cfg(cc6502_verif)]
+                            #[cfg(cc6502_verif_trace)]
                             {
                                 vf_kind = "elif";
                             }
@@ -785,7 +786,7 @@ pub fn process<I: BufRead, O: Write>(
                             }
                         }
                         "#else" => {
-                            #[cfg(cc6502_verif)]
+                            #[cfg(cc6502_verif_trace)]
                             {
                                 vf_kind = "else";
                             }
@@ -804,7 +805,7 @@ pub fn process<I: BufRead, O: Write>(
                             }
                         }
                         "#endif" => {
-                            #[cfg(cc6502_verif)]
+                            #[cfg(cc6502_verif_trace)]
                             {
                                 vf_kind = "endif";
                             }
@@ -824,7 +825,7 @@ pub fn process<I: BufRead, O: Write>(
                             })?;
                         }
                         "#error" => {
-                            #[cfg(cc6502_verif)]
+                            #[cfg(cc6502_verif_trace)]
                             {
                                 vf_kind = "error";
                             }
@@ -862,7 +863,7 @@ pub fn process<I: BufRead, O: Write>(
                 }
             }
         }
-        #[cfg(cc6502_verif)]
+        #[cfg(cc6502_verif_trace)]
         verif_log::LOG.with(|l| {
             if let Some(v) = l.borrow_mut().as_mut() {
                 v.push(verif_log::Event {
